@@ -419,6 +419,47 @@ pub fn run(tier: Tier) -> i32 {
         ("stdin", J::s(text_of(&spectra()[2]))),
     ]));
 
+    // verbosity flags must not change what view prints
+    {
+        let flags = ["-q", "-qq", "-v", "-vv"];
+        let picked: Vec<usize> = (0..cs.len()).filter(|i| i % 37 == 0 && cs[*i].spectrum < FIRST_BIG).collect();
+        let mut fj: Vec<(usize, usize)> = Vec::new();
+        for &i in &picked {
+            for f in 0..flags.len() {
+                fj.push((i, f));
+            }
+        }
+        let res = par_map(fj.len(), |k| {
+            let (i, f) = fj[k];
+            let c = &cs[i];
+            let input = text_of(&spectra()[c.spectrum]);
+            let a = combined_args(c);
+            let mut av: Vec<&str> = a.iter().map(|s| s.as_str()).collect();
+            let base = run_sfs(&av, Stdin::Bytes(input.as_bytes()), &scratch);
+            av.push(flags[f]);
+            let o = run_sfs(&av, Stdin::Bytes(input.as_bytes()), &scratch);
+            if o.code == base.code && o.stdout == base.stdout {
+                None
+            } else {
+                Some((
+                    format!("C13|cli|verbosity-changes-output|{}", flags[f]),
+                    format!("{av:?}: {} with {} bytes on stdout; without the flag {} with {} bytes", o.status_str(), o.stdout.len(), base.status_str(), base.stdout.len()),
+                    combo_j(c),
+                ))
+            }
+        });
+        for v in res.into_iter().flatten() {
+            rep.violation(v.0, v.1, v.2);
+        }
+        rep.part(Part {
+            name: "cli: verbosity flags".into(),
+            evaluations: fj.len() as u64,
+            nontrivial: fj.len() as u64,
+            note: format!("{} option combinations x {{-q,-qq,-v,-vv}}: same status and byte-identical stdout as without the flag", picked.len()),
+            exhaustive: true,
+            extra: vec![],
+        });
+    }
     // library layer: explicit-state search over operation sequences on the live objects
     let inits: Vec<RefArray> = vec![
         RefArray::from_fn(&[2, 3, 2], |f, _| (f * 7 % 11 + 1) as f64),
